@@ -6,6 +6,7 @@ package main
 // observable answer, and the property oracles evaluated on the implementation.
 
 import (
+	govkeeper "github.com/KiraCore/sekai/x/gov/keeper"
 	"bytes"
 	"fmt"
 	"math/big"
@@ -92,6 +93,16 @@ func newAnteH(r *Rec, nacc, nval int) *anteH {
 	// one more account than the generators use: a second sudo account that only ever signs the interference transactions
 	w := NewWorld(WorldOpts{NAcc: nacc + 1, NVal: nval, SudoAccs: []int{0, nacc}, Balance: anteBalance()})
 	h := &anteH{r: r, w: w, nval: nval, denoms: anteDenoms, intf: nacc}
+	{ // the sudo role does not carry PermChangeTxFee: the interfering account gets it directly (MsgSetExecutionFee)
+		ctx := w.KeeperCtx()
+		a, ok := w.app.CustomGovKeeper.GetNetworkActorByAddress(ctx, w.addrs[nacc])
+		if !ok {
+			a = govtypes.NewDefaultActor(w.addrs[nacc])
+		}
+		if err := w.app.CustomGovKeeper.AddWhitelistPermission(ctx, a, govtypes.PermChangeTxFee); err != nil {
+			panic(err)
+		}
+	}
 	// warm-up block: the fee collector account and every signer account exist afterwards
 	var txs []txCase
 	for i := nval; i < nacc; i++ {
@@ -796,7 +807,33 @@ func (h *anteH) apply(ctx sdk.Context, s cfgSpec) {
 		}
 	}
 	for _, f := range s.exec {
-		app.CustomGovKeeper.SetExecutionFee(ctx, f)
+		// by the keeper, by MsgSetExecutionFee of a holder of PermChangeTxFee, or by the content handler of a
+		// SetExecutionFees proposal - whichever path wrote it, the stored entry is the one that was set (the fee-range
+		// decorator reads it back for every message of that type)
+		path := h.r.Rng.Intn(3)
+		var err error
+		switch path {
+		case 0:
+			app.CustomGovKeeper.SetExecutionFee(ctx, f)
+		case 1:
+			me := h.w.addrs[h.intf]
+			if !govkeeper.CheckIfAllowedPermission(ctx, app.CustomGovKeeper, me, govtypes.PermChangeTxFee) { // worlds not built by newAnteH
+				a, ok := app.CustomGovKeeper.GetNetworkActorByAddress(ctx, me)
+				if !ok {
+					a = govtypes.NewDefaultActor(me)
+				}
+				app.CustomGovKeeper.AddWhitelistPermission(ctx, a, govtypes.PermChangeTxFee)
+			}
+			_, err = govkeeper.NewMsgServerImpl(app.CustomGovKeeper).SetExecutionFee(sdk.WrapSDKContext(ctx),
+				govtypes.NewMsgSetExecutionFee(f.TransactionType, f.ExecutionFee, f.FailureFee, f.Timeout, f.DefaultParameters, me))
+		default:
+			err = app.CustomGovKeeper.GetProposalRouter().ApplyProposal(ctx, 0, govtypes.NewSetExecutionFeesProposal(h.w.addrs[h.intf], "d", []govtypes.ExecutionFee{f}), sdk.ZeroDec())
+		}
+		got := app.CustomGovKeeper.GetExecutionFee(ctx, f.TransactionType)
+		h.r.Count(fmt.Sprintf("cfg:exec-fee-path-%d", path))
+		if err != nil || got == nil || got.ExecutionFee != f.ExecutionFee || got.FailureFee != f.FailureFee || got.Timeout != f.Timeout || got.DefaultParameters != f.DefaultParameters {
+			h.r.Fail("C09/config/execution-fee-not-as-set", fmt.Sprintf("execution fee %+v set through path %d (0 keeper, 1 message, 2 proposal; err=%v); stored: %+v", f, path, err, got), nil)
+		}
 	}
 }
 
